@@ -136,7 +136,33 @@ def stream_scripts(ctx):
         ctx.log("TcpConn ScriptSpec %s: %d states, %d edges -> %d new scripts" % (cfg, len(nodes), len(edges), len(out) - n0))
         if len(out) == n0:
             raise vf.MachineryError("no stream script could be projected from %s" % cfg)
+    out += edge_scripts()
     ctx.cov["replay"]["stream_scripts"] = {"scripts": len(out)}
+    return out
+
+
+DRAIN = 8 << 10
+
+
+def edge_scripts():
+    """TcpConn.tla's stage rule at byte precision (need > free => flush first; need counts the 2-byte prefix): pipelined
+    hits whose exact-size answers leave the drain buffer with precisely F bytes free, followed by a frame that needs
+    F (fits exactly), F+1 or F+2 (one or two bytes too many: must be flushed-then-staged, never cut), F-1."""
+    out = []
+    for n_before in (1, 3, 7):
+        for last_body in (1024, 600):
+            for ov in (-1, 0, 1, 2):
+                free = last_body + 2 - ov            # the last frame needs free + ov bytes
+                used = DRAIN - free
+                # n_before framed replies that occupy exactly `used` bytes
+                base = used // n_before
+                sizes = [base] * n_before
+                sizes[-1] += used - base * n_before
+                if min(sizes) < 120:
+                    continue
+                frames = [{"kind": "hit", "sz": "e%d" % (z - 2), "opt": "none", "brk": False} for z in sizes]
+                frames.append({"kind": "hit", "sz": "e%d" % last_body, "opt": "none", "brk": False})
+                out.append({"fam": "edge", "frames": frames})
     return out
 
 
@@ -459,6 +485,11 @@ def engines(ctx, prefix="", only=None, secure=True, extended=None, scripts=None)
         if not res.get("violations") and (c.get("udp_datagrams_received", 0) < 50 or c.get("tcp_answered", 0) < 10
                                           or c.get("tcp_big_replies_ok", 0) < 8):
             raise vf.MachineryError("engine run %s is vacuous: %s" % (cfg["name"], info))
+        if not res.get("violations") and cfg.get("scripts") and any(sc.get("fam") == "edge" for sc in cfg["scripts"]):
+            if c.get("tcp_exact_replies_ok", 0) < 20 or c.get("tcp_exact_replies_off", 0) > c.get("tcp_exact_replies_ok", 0) // 10:
+                raise vf.MachineryError("engine run %s: the exact-size answers of the edge scripts missed their target lengths "
+                                        "(ok=%s off=%s): the drain-buffer boundary was not exercised" % (
+                                            cfg["name"], c.get("tcp_exact_replies_ok", 0), c.get("tcp_exact_replies_off", 0)))
     if secure:
         if secure_legs(ctx, tcptrace, prefix, extended, scripts):
             scripted.add("dot")
